@@ -104,6 +104,30 @@ def bind(cfg, crate, I, rep, key):
                     in_fail = True
             if "subject_pki.algorithm" in F.show_atom(a):
                 in_fail = True
+    # the binding must be to the COMPLETE AlgorithmIdentifier of the key (OID *and* parameters: the named curve
+    # lives in the parameters), compared against the identifier the chosen algorithm itself writes
+    complete = False
+    partial = []
+    for c, v, n, f in I.fails:
+        if f != FN:
+            continue
+        for a in F.atoms(c):
+            for x in I.atom_vals.get(a, ()):
+                pass
+        for a in F.atoms(c):
+            if a[0] == "eq":
+                sides = [s for s in a[1:] if isinstance(s, str)]
+                for s_ in sides:
+                    if "subject_pki.algorithm" in s_:
+                        if s_.endswith("subject_pki.algorithm"):
+                            other = [o for o in sides if o is not s_]
+                            if other and "write_oids_sign_alg" in _producers(I, a) :
+                                complete = True
+                        else:
+                            partial.append(s_[-80:])
+    rep.ob("C06.bind", key + "|complete-identifier", complete or in_alg,
+           "the key's algorithm must be bound to the request's complete SubjectPublicKeyInfo AlgorithmIdentifier (OID and parameters - the named curve is a parameter) as written by the chosen algorithm; comparing only a part (e.g. the OID) accepts a P-384 key under a P-256 label",
+           expected="info.subject_pki.algorithm == AlgorithmIdentifier written by alg.write_oids_sign_alg", found="partial comparison of %s" % partial if partial else "no comparison", sp=node.get("sp"))
     rep.ob("C06.bind", key + "|algorithm-bound-to-spki", in_alg or in_fail,
            "the algorithm recorded for the extracted key is taken from the *signature* algorithm OID and the SubjectPublicKeyInfo's own AlgorithmIdentifier is never read, so the key type is not bound to the key: a request with a P-384 key signed with ecdsa-with-SHA256 (as OpenSSL produces) verifies and is then labelled P-256, and the issued certificate's SPKI is not the request's",
            expected="subject_pki.algorithm flows into the chosen algorithm or into a rejection", found="alg = %s" % (core(alg).r()[-200:] if alg is not None else None), sp=node.get("sp"))
@@ -116,6 +140,15 @@ def bind(cfg, crate, I, rep, key):
     rep.ob("C06.key", "%s|%s|serializer-args" % (cfg, fn), ok, "the certificate is serialised from the request's params and the request's public key", found=[core(x).r() for x in sers[0][1][:2]] if sers else None)
     # SPKI writer emits alg.write_oids_sign_alg + raw bits: covered by the reference spki(pub_key) in C02.schema
     rep.sample({"rule": "C06.bind", "cfg": cfg, "alg": core(alg).r()[-240:] if alg is not None else None})
+
+
+def _producers(I, atom_key):
+    """Callees through which the operands of an eq atom were produced (operands are recorded for == / != on non-constants)."""
+    out = set()
+    for c, a, n, cnd, f in I.calls:
+        if f == FN and c.endswith(("write_oids_sign_alg", "AlgorithmIdentifier as x509_parser::prelude::FromDer<'a, x509_parser::error::X509Error>>::from_der", "FromDer::from_der")):
+            out.add(c.split("::")[-1])
+    return out
 
 
 def whitelist(cfg, crate, body, I, rep, key):
